@@ -881,6 +881,11 @@ func (c *Conn) handleReturn(ctx context.Context, ret rpccp.Return, releaseRet ca
 	if pr.parseFailed {
 		c.report(annotate(pr.err).errorf("incoming return"))
 	}
+	if pr.err == nil {
+		// Pipelined calls that reach q from now on (the promise waits for
+		// them before it resolves) must not go to the remote vat any more.
+		q.returned, q.result = true, pr.result
+	}
 	switch {
 	case q.bootstrapPromise != nil && pr.err == nil:
 		q.release = func() {}
